@@ -3,11 +3,11 @@
 import json, subprocess
 CLAIMED = {
  "C12": dict(cat="exploration", tech="deterministic simulation of histories over the FastCheckCache seam (persistent, lossy cache; build - fast check - edit - rebuild - fast check), compared with cache-less runs on the same graph and under another hash seed",
-   text="Histories of length 2-4 over generated TypeScript packages; after every fast check with the persistent cache the same graph is fast-checked without a cache (transparency of emitted output), again under another hash seed (determinism), and checked for the per-package all-or-nothing rule in both states and for recorded dependencies matching the emitted text. Sampled by seed.",
+   text="Histories of length 2-4 over generated TypeScript packages (one or two registry packages, optionally a workspace member analysed with them, a two-version dependency whose old version another package pins, JavaScript entrypoints, cross-package barrels); after every fast check with the persistent cache the same graph is fast-checked without a cache (transparency of emitted output), again under another hash seed (determinism), and checked for the per-package all-or-nothing rule in both states and for recorded dependencies matching the emitted text. Sampled by seed.",
    note="The generated declarations are a small language sufficient for emit/diagnostic outcomes; with a cache, diagnostics are compared as presence only (the cached path reports a placeholder).", ref="DESIGN.md §3 C12"),
 
  "C01": dict(cat="exploration", tech="deterministic simulation: worlds built by the real builder under seeded schedules, compared with a reference model of each module's dependencies (from the generator's structured description) and a closure check over followed edges, redirects and the loader's request log",
-   text="(A) for every loaded module with a structured description the recorded dependency map equals the model's under the resolver and graph kind; (B) the graph is exactly reachable-and-closed along the edges the kind and options follow, every loader request has an entry or redirect and every redirect is recorded; (C) what the world serves as a module is a module entry (root defaults also through explicit redirects; plainly imported script modules are modules unless unparsable). Sampled by seed over import forms x media types x schemes x kinds x options; orphans left behind by an importer that turned into an error are a listed finding.",
+   text="(A) for every loaded module with a structured description the recorded dependency map equals the model's under the resolver and graph kind; static wins is asserted as the statement puts it (the type-only-static + dynamic-code case is a listed finding); (B) the graph is exactly reachable-and-closed along the edges the kind and options follow, every loader request has an entry or redirect and every redirect is recorded; (C) what the world serves as a module is a module entry (root defaults also through explicit redirects; plainly imported script modules are modules unless unparsable). Sampled by seed over import forms x media types x schemes x kinds x options; orphans left behind by an importer that turned into an error are a listed finding.",
    note="The model never parses source text; URL joining is delegated to deno_graph::resolve_import. Same-attribute proviso enforced by the generator (source-phase imports only for targets not imported otherwise; no @ts-types on dynamic imports).", ref="DESIGN.md §3 C01"),
  "C13": dict(cat="exploration", tech="deterministic simulation: differential between four renderings of one simulated registry (no embedded info, moduleGraph2, round-tripped moduleGraph2, moduleGraph1) crossed with per-file cache states and seeded completion orders of the deferred content loads",
    text="The graph built through the manifest shortcut must equal the graph built by parsing the same package sources (strictly for moduleGraph2, on everything but the recomputed @deno-types range for moduleGraph1); every ModuleInfo a run produces is round-tripped through JSON. Sampled by seed.",
